@@ -526,6 +526,35 @@ func TestReuse(t *testing.T) {
 			c.BOps, c.BHi = []ops.Op{ops.OpSetCSel(3), ops.OpSetNReg(1, false, 0.5)}, nil
 			labels = append(labels, "B-has-styling-instructions-only")
 		}
+		if rapid.IntRange(0, 5).Draw(t, "astale") == 0 {
+			// A ends with B's own first gradient, drawn with another first colour, and then set up
+			// once more with B's colours but a last stop that is not premultiplied (so that path is
+			// not drawn): whatever a Renderer keeps of the accepted and of the rejected attempt, B's
+			// gradient is B's
+			var cols []ops.Op
+			for _, o := range c.BOps {
+				if o.K == ops.SetCReg && o.Incr && o.C != nil && o.C.T == 0 && len(cols) < 3 {
+					cols = append(cols, o)
+				}
+			}
+			if len(cols) == 3 {
+				other := ops.ColorV{T: 0, R: cols[0].C.R ^ 0x5a, G: cols[0].C.G, B: cols[0].C.B ^ 0x33, A: 0xff}
+				bad := ops.ColorV{T: 0, R: 0xff, G: 0x10, B: 0x10, A: 0x20}
+				pathOps := []ops.Op{ops.OpStartPath(0, -20, -20), ops.OpDraw(ops.AbsLineTo, 20, -20), ops.OpDraw(ops.AbsLineTo, 20, 20), ops.OpDraw(ops.ClosePathEndPath)}
+				a := []ops.Op{ops.OpReset(c.bvb(), ivg.DefaultPalette), ops.OpSetNReg(0, true, 1.0/64)}
+				for i := 0; i < 5; i++ {
+					a = append(a, ops.OpSetNReg(0, true, 0))
+				}
+				a = append(a, ops.OpSetNReg(0, true, 0), ops.OpSetNReg(0, true, 0.5), ops.OpSetNReg(0, true, 1))
+				a = append(a, ops.OpSetCReg(0, true, other), cols[1], cols[2])
+				a = append(a, ops.OpSetCReg(0, false, ops.RGBAv(spec.EncodeGradientBits(spec.GradientBits{NStops: 3, CBase: 0, NBase: 6, Spread: 1}))))
+				a = append(a, pathOps...)
+				a = append(a, ops.OpSetCSel(0), cols[0], cols[1], ops.OpSetCReg(0, true, bad))
+				a = append(a, pathOps...)
+				c.AOps = append(c.AOps, a...)
+				labels = append(labels, "A-ends-with-B's-gradient-once-recoloured-and-once-rejected-at-its-last-stop")
+			}
+		}
 		if rapid.IntRange(0, 3).Draw(t, "areset") == 0 {
 			// A ends with a Reset to B's viewBox moved elsewhere (same size, same scale, other origin)
 			dx := float32(rapid.IntRange(-30, 30).Draw(t, "avdx"))
